@@ -14,6 +14,7 @@ import (
 	"sort"
 	"strconv"
 	"strings"
+	"sync/atomic"
 	"time"
 
 	"github.com/q191201771/lal/pkg/base"
@@ -30,6 +31,17 @@ func init() {
 }
 
 const admWait = 6 * time.Second
+
+// once several expected effects have failed to appear (a broken tree), stop
+// spending the full wait on every further one
+var admTimeouts int32
+
+func admWaitDur() time.Duration {
+	if atomic.LoadInt32(&admTimeouts) >= 3 {
+		return 300 * time.Millisecond
+	}
+	return admWait
+}
 
 const admSdp = "v=0\r\no=- 0 0 IN IP4 127.0.0.1\r\ns=No Name\r\nc=IN IP4 127.0.0.1\r\nt=0 0\r\n" +
 	"m=video 0 RTP/AVP 96\r\na=rtpmap:96 H264/90000\r\n" +
@@ -402,7 +414,7 @@ func (c *admCase) pushView(stream string, i int) (logic.VerifPushView, bool) {
 }
 
 func (c *admCase) waitPushIdle(stream string, i int) {
-	deadline := time.Now().Add(admWait)
+	deadline := time.Now().Add(admWaitDur())
 	for {
 		pv, ok := c.pushView(stream, i)
 		if !ok || (!pv.IsPushing && pv.Session == "") {
@@ -417,7 +429,7 @@ func (c *admCase) waitPushIdle(stream string, i int) {
 }
 
 func (c *admCase) waitPullStop(a *admAttempt, from int) {
-	deadline := time.Now().Add(admWait)
+	deadline := time.Now().Add(admWaitDur())
 	for {
 		c.nh.mu.Lock()
 		found := false
@@ -722,7 +734,7 @@ func (c *admCase) doOp(op string) string {
 			s.conn.release()
 			select {
 			case <-s.done:
-			case <-time.After(admWait):
+			case <-time.After(admWaitDur()):
 				return "timeout"
 			}
 		case "fs":
@@ -745,7 +757,7 @@ func (c *admCase) doOp(op string) string {
 		resp := c.sm.CtrlKickSession(base.ApiCtrlKickSessionReq{StreamName: stream(1), SessionId: key})
 		if resp.ErrorCode == base.ErrorCodeSucc {
 			if s := c.sess[name]; s != nil && s.kind == "pp" {
-				deadline := time.Now().Add(admWait)
+				deadline := time.Now().Add(admWaitDur())
 				for {
 					v, ok := c.viewOf(stream(1))
 					if !ok || v.PsPub != key {
@@ -814,7 +826,7 @@ func (c *admCase) doOp(op string) string {
 			// the origin sees the play request
 			select {
 			case a.origin = <-c.originObs.ch:
-			case <-time.After(admWait):
+			case <-time.After(admWaitDur()):
 				return "timeout-origin"
 			}
 			ev, ok := c.nh.waitPull(from, a.stream)
@@ -862,10 +874,10 @@ func (c *admCase) doOp(op string) string {
 			go c.originSrv.VerifHandleTcpConnect(p.conn)
 			select {
 			case p.origin = <-c.originObs.ch:
-			case <-time.After(admWait):
+			case <-time.After(admWaitDur()):
 				return "timeout-target"
 			}
-			deadline := time.Now().Add(admWait)
+			deadline := time.Now().Add(admWaitDur())
 			p.state = "attached"
 			for {
 				pv, ok := c.pushView(stream(1), ti)
@@ -998,7 +1010,7 @@ func admWaitAny(a, b *admListener) (net.Conn, bool) {
 		return c, true
 	case c := <-cb:
 		return c, true
-	case <-time.After(admWait):
+	case <-time.After(admWaitDur()):
 		return nil, false
 	}
 }
@@ -1044,6 +1056,7 @@ func admRun(a []string) string {
 		out = append(out, r+"/"+c.render())
 	}
 	res := strings.Join(out, ";")
+	atomic.AddInt32(&admTimeouts, int32(len(c.anomalies)))
 	if len(c.anomalies) > 0 {
 		res += ";anomaly:" + strings.Join(c.anomalies, "+")
 	}
